@@ -237,6 +237,33 @@ theorem forRangeM_pure {β σ : Type} (body : Int → β → σ → HM σ) (step
     (s : σ) (h : Heap) : forRangeM data body s h = (h, .ok (rangeFold step 0 data s), []) :=
   forRangeAux_pure body step data hb data [] s h rfl
 
+/-- a range loop whose body neither touches the heap nor panics, under an invariant `P index state` -/
+theorem forRangeAux_inv {β σ : Type} (body : Int → β → σ → HM σ) (step : Nat → β → σ → σ) (P : Nat → σ → Prop)
+    (data : List β) (h : Heap)
+    (hb : ∀ (k : Nat) (x : β) (s : σ), data[k]? = some x → P k s →
+      body k x s h = (h, .ok (step k x s), []) ∧ P (k + 1) (step k x s)) :
+    ∀ (xs pre : List β) (s : σ), data = pre ++ xs → P pre.length s →
+      forRangeAux body (pre.length : Int) xs s h = (h, .ok (rangeFold step pre.length xs s), []) := by
+  intro xs
+  induction xs with
+  | nil => intro pre s _ _; rfl
+  | cons x xs ih =>
+    intro pre s hd hp
+    have hk : data[pre.length]? = some x := by rw [hd]; simp
+    obtain ⟨h1, h2⟩ := hb pre.length x s hk hp
+    have := ih (pre ++ [x]) (step pre.length x s) (by simp [hd]) (by simpa using h2)
+    simp only [List.length_append, List.length_cons, List.length_nil, Nat.zero_add, Int.natCast_add, Int.cast_ofNat_Int] at this
+    unfold forRangeAux
+    rw [run_bind_ok h1, prep_nil]
+    exact this
+
+theorem forRangeM_inv {β σ : Type} (body : Int → β → σ → HM σ) (step : Nat → β → σ → σ) (P : Nat → σ → Prop)
+    (data : List β) (h : Heap)
+    (hb : ∀ (k : Nat) (x : β) (s : σ), data[k]? = some x → P k s →
+      body k x s h = (h, .ok (step k x s), []) ∧ P (k + 1) (step k x s))
+    (s : σ) (hs : P 0 s) : forRangeM data body s h = (h, .ok (rangeFold step 0 data s), []) :=
+  forRangeAux_inv body step P data h hb data [] s rfl hs
+
 /-! ### `for` loops -/
 
 theorem whileM_zero {σ : Type} (cond : σ → HM Bool) (body : σ → HM σ) (s : σ) :
